@@ -22,6 +22,8 @@
 
 #include "mp/nl-reader.h"
 
+#include <limits>
+
 namespace {
 enum {
   USE_VBTOL_OPTION = 1,
@@ -189,6 +191,11 @@ void mp::internal::TextReader<Locale>::ReadHeader(NLHeader &header) {
   for (int i = 0; i < header.num_ampl_options; ++i) {
     double tmp;
     if (!ReadOptionalDouble(tmp))
+      break;
+    // The conversion is undefined for NaN and values outside the long range.
+    const double min_long =
+        static_cast<double>(std::numeric_limits<long>::min());
+    if (!(tmp >= min_long && tmp < -min_long))
       break;
     header.ampl_options[i] = (long)tmp;
     if (header.ampl_options[i] != tmp)
